@@ -343,18 +343,21 @@ Proof.
 Qed.
 
 Lemma seg_emit : forall st st' bs m LH h (E : cert -> Prop),
-  app_of st st' bs -> 1 <= zlength bs -> code_inv st ->
+  app_of st st' bs -> ibytes bs -> code_inv st ->
   (forall ip n, In (KFun ip n) (c_constants st') -> In (KFun ip n) (c_constants st)) ->
   (forall F K G, has_bytes F (code_len st) bs -> code_len st + zlength bs <= zlength F ->
      zlength (c_constants st') <= zlength K -> E G -> loop_ok G st' m LH -> iok F K G (code_len st) m h) ->
   seg st st' m LH h E [(code_len st, zlength bs, m, h)].
 Proof.
-  intros st st' bs m LH h E A L I HK H. split.
+  intros st st' bs m LH h E A IB I HK H.
+  assert (L : 1 <= zlength bs).
+  { destruct IB as (op & _ & W). rewrite W. unfold opwidth. lia. }
+  split.
   - rewrite (app_of_len _ _ _ A). apply contig_single. exact L.
   - split; reflexivity.
   - apply kfun_new_same. exact HK.
   - apply brk_new_none; [exact I|apply A].
-  - intros F K G KL GL HE LO x [<-|[]]. apply (ent_ok_emit F K G st st' bs); [exact A|exact I|].
+  - intros F K G KL GL HE LO x [<-|[]]. apply (ent_ok_emit F K G st st' bs); [exact A|exact I|exact IB|].
     intros HB LF. apply H; assumption.
 Qed.
 
@@ -391,7 +394,8 @@ Lemma seg_simple : forall op k d st m LH h hout,
   seg st (emit_opcode op st) m LH h (ex m (code_len (emit_opcode op st)) hout) [(code_len st, 1, m, h)].
 Proof.
   intros op k d st m LH h hout E I Hk ->.
-  apply (seg_emit st (emit_opcode op st) [byte_of_opcode op]); [apply app_emit_opcode|reflexivity|exact I|auto|].
+  apply (seg_emit st (emit_opcode op st) [byte_of_opcode op]);
+    [apply app_emit_opcode|apply ibytes_1; exact (simple_width _ _ _ E)|exact I|auto|].
   intros F K G HB LF KL HE LO. eapply iok_simple; [exact E|exact HB|exact LF|exact Hk|].
   unfold ex in HE. rewrite (app_of_len _ _ _ (app_emit_opcode op st)) in HE. exact HE.
 Qed.
@@ -418,7 +422,7 @@ Lemma seg_const_at : forall st st' idx m LH h,
   seg st st' m LH h (ex m (code_len st') (h + 1)) [(code_len st, 3, m, h)].
 Proof.
   intros st st' idx m LH h A Hi Hk I HK.
-  apply (seg_emit st st' (u16b OConst idx)); [exact A|zl3|exact I|exact HK|].
+  apply (seg_emit st st' (u16b OConst idx)); [exact A|apply ibytes_3; reflexivity|exact I|exact HK|].
   intros F K G HB LF KL HE LO. eapply iok_const; [exact HB|exact LF|exact Hi|lia|].
   unfold ex in HE. rewrite (app_of_len _ _ _ A) in HE. exact HE.
 Qed.
@@ -473,7 +477,7 @@ Lemma seg_get_sym : forall s st st' m LH h, emit_sym (scoped s OGetGlobal OGetLo
   seg st st' m LH h (ex m (code_len st') (h + 1)) [(code_len st, 3, m, h)].
 Proof.
   intros s st st' m LH h H I B. destruct (emit_sym_app _ _ _ _ H) as (A & R & _ & Ek & _).
-  apply (seg_emit st st' _ m LH h _ A); [zl3|exact I|rewrite Ek; auto|].
+  apply (seg_emit st st' _ m LH h _ A); [apply ibytes_3; unfold scoped; destruct (s_scope s); reflexivity|exact I|rewrite Ek; auto|].
   intros F K G HB LF KL HE LO. unfold ex in HE. rewrite (app_of_len _ _ _ A) in HE.
   replace (zlength (u16b (scoped s OGetGlobal OGetLocal) (Z.of_nat (s_index s)))) with 3 in * by reflexivity.
   unfold scoped in *. destruct (s_scope s).
@@ -486,7 +490,7 @@ Lemma seg_set_sym : forall s st st' m LH h, emit_sym (scoped s OSetGlobal OSetLo
   seg st st' m LH h (ex m (code_len st') (h - 1)) [(code_len st, 3, m, h)].
 Proof.
   intros s st st' m LH h H I Hh B. destruct (emit_sym_app _ _ _ _ H) as (A & R & _ & Ek & _).
-  apply (seg_emit st st' _ m LH h _ A); [zl3|exact I|rewrite Ek; auto|].
+  apply (seg_emit st st' _ m LH h _ A); [apply ibytes_3; unfold scoped; destruct (s_scope s); reflexivity|exact I|rewrite Ek; auto|].
   intros F K G HB LF KL HE LO. unfold ex in HE. rewrite (app_of_len _ _ _ A) in HE.
   replace (zlength (u16b (scoped s OSetGlobal OSetLocal) (Z.of_nat (s_index s)))) with 3 in * by reflexivity.
   unfold scoped in *. destruct (s_scope s).
@@ -844,7 +848,7 @@ Proof.
       cbn [emit_u16 emit_opcode c_symbols]. rewrite E4. apply sgrow_refl. exact W0. }
     assert (EL : code_len sA = code_len st) by (unfold code_len; rewrite E1; reflexivity).
     eexists. apply (seg_same_start st sA); [symmetry; exact E1|exact HK|].
-    apply (seg_emit sA _ _ m LH h _ A); [unfold zlength; cbn [length]; lia|exact IA|auto|].
+    apply (seg_emit sA _ _ m LH h _ A); [exists opc; split; [reflexivity|rewrite (fused_width _ _ Em); reflexivity]|exact IA|auto|].
     intros F K G HB LF KL HE LO. unfold ex in HE. rewrite (app_of_len _ _ _ A) in HE.
     change (zlength [byte_of_opcode opc; li mod 256; (li / 256) mod 256; idx mod 256; (idx / 256) mod 256]) with 5 in *.
     eapply iok_fused; [exact Em|exact HB|exact LF|unfold li; lia|exact B|exact Ri| |exact HE].
@@ -891,7 +895,7 @@ Proof.
   destruct (exprs_seg vs IH st _ m h LH st st1 h We H1 P I0 W0 eq_refl (fr_mono _ _ _ F2)) as [C1 S1]; [lia|].
   pose proof (zlength_nonneg' _ vs) as N0.
   eexists. eapply (seg_after_exprs vs); [exact S1|intros N; exact (exprs_len vs st st1 We I0 W0 H1 N)| |exact F2|zl3].
-  apply (seg_emit st1 _ _ m LH (h + zlength vs) _ A); [zl3|exact (fr_inv _ _ _ F1)|auto|].
+  apply (seg_emit st1 _ _ m LH (h + zlength vs) _ A); [apply ibytes_3; reflexivity|exact (fr_inv _ _ _ F1)|auto|].
   intros F K G HB LF KL HE LO. unfold ex in HE. rewrite (app_of_len _ _ _ A) in HE.
   eapply iok_array; [exact HB|exact LF|lia|lia|].
   replace (h + zlength vs - zlength vs + 1) with (h + 1) by lia. exact HE.
@@ -913,7 +917,7 @@ Proof.
     pose proof (app_frame _ _ _ A ltac:(unfold zlength; cbn [length]; lia) (fr_inv _ _ _ F1) (fr_wf _ _ _ F1) eq_refl eq_refl) as F2.
     destruct (exprs_seg args IHa st _ m h LH st st1 h Wa H1 P I0 W0 eq_refl (fr_mono _ _ _ F2)) as [C1 S1]; [lia|].
     eexists. eapply (seg_after_exprs args); [exact S1|intros N; exact (exprs_len args st st1 Wa I0 W0 H1 N)| |exact F2|unfold zlength; cbn [length]; lia].
-    apply (seg_emit st1 _ _ m LH (h + zlength args) _ A); [unfold zlength; cbn [length]; lia|exact (fr_inv _ _ _ F1)|auto|].
+    apply (seg_emit st1 _ _ m LH (h + zlength args) _ A); [exists OCallBuiltin; split; reflexivity|exact (fr_inv _ _ _ F1)|auto|].
     intros F K G HB LF KL HE LO. unfold ex in HE. rewrite (app_of_len _ _ _ A) in HE.
     change (zlength [byte_of_opcode OCallBuiltin; byte_of_builtin b; zlength args]) with 3 in *.
     eapply iok_call_builtin; [exact HB|exact LF|lia|].
@@ -931,7 +935,7 @@ Proof.
     eexists. eapply (seg_after_exprs args); [exact S1|intros N; exact (exprs_len args st st1 Wa I0 W0 H1 N)|
                                              |exact (frame_trans _ _ _ _ _ F2 F3)|unfold zlength; cbn [length]; lia].
     eapply seg_app1; [exact S2| |exact F3|unfold zlength; cbn [length]; lia|lia].
-    apply (seg_emit st2 _ _ m LH (h + zlength args + 1) _ A); [unfold zlength; cbn [length]; lia|exact (fr_inv _ _ _ F2)|auto|].
+    apply (seg_emit st2 _ _ m LH (h + zlength args + 1) _ A); [exists OCall; split; reflexivity|exact (fr_inv _ _ _ F2)|auto|].
     intros F K G HB LF KL HE LO. unfold ex in HE. rewrite (app_of_len _ _ _ A) in HE.
     change (zlength [byte_of_opcode OCall; zlength args]) with 2 in *.
     eapply iok_call; [exact HB|exact LF|lia|lia|].
